@@ -32,11 +32,14 @@ class Node:
 SFN_CHARS = "ABCDEFGHIJKLMNOPQRSTUVWXYZ0123456789!#$%&'()-@^_`{}~"
 
 class Builder:
-    def __init__(self, rng, force_top=None):
+    def __init__(self, rng, force_top=None, stale_count=None):
         """force_top = 12 | 16: a volume with exactly the maximal cluster count of that FAT width (4084 / 65524) holding a file
         TOPCHAIN.BIN whose chain runs THROUGH the highest cluster number (0xFF5 / 0xFFF5) - a legal link value on such a volume"""
         self.r = rng
         self.force_top = force_top
+        # stale_count = k: a FAT32 volume whose information sector stores a free count SMALLER than reality (k clusters; the
+        # specification calls the stored count a hint that "is not necessarily correct")
+        self.stale_count = stale_count
 
     def pick_geometry(self):
         r = self.r
@@ -53,6 +56,8 @@ class Builder:
         self.maxfat = self.bits in (12, 16) and r.chance(1, 4)
         if self.force_top:
             self.bits = self.force_top; self.maxfat = True
+        if self.stale_count is not None:
+            self.bits = 32; self.maxfat = False; self.spc = 1; self.clusters = r.range(65525, 66500)
         if self.maxfat:
             self.spc = 1
             self.clusters = (4084 if self.bits == 12 else 65524) - (0 if self.force_top else r.below(4))
@@ -371,6 +376,9 @@ class Builder:
             fsi[0:4] = (0x41615252).to_bytes(4, "little"); fsi[484:488] = (0x61417272).to_bytes(4, "little")
             self.fsinfo_known = self.r.chance(1, 2)
             fsi[488:492] = (self.free_count if self.fsinfo_known else 0xFFFFFFFF).to_bytes(4, "little")
+            if self.stale_count is not None:
+                self.fsinfo_known = True
+                fsi[488:492] = min(self.stale_count, self.free_count).to_bytes(4, "little")
             fsi[492:496] = (0xFFFFFFFF).to_bytes(4, "little")
             fsi[508:512] = (0xAA550000).to_bytes(4, "little")
             self.put(self.bps, bytes(fsi))
